@@ -5,6 +5,7 @@ mod anz;
 mod astproj;
 mod dbg;
 mod decl;
+mod events;
 mod gating;
 mod gen;
 mod gram;
@@ -42,9 +43,13 @@ fn main() {
         "inc-cases" => inc::cases(rest),
         "decl-cases" => decl::cases(rest),
         "ty-rows" => tyrows::rows(rest),
+        "events-cases" => events::cases(rest),
+        "evtrace-record" => events::record_traces(rest),
         "lex-cases" => lex::cases(rest),
         "lex-exhaustive" => lex::exhaustive(rest),
         "lex-record" => lex::record(rest),
+        "lexm-record" => lex::record_model(rest),
+        "lexm-cases" => lex::model_cases(rest),
         other => {
             eprintln!("unknown subcommand {other}");
             std::process::exit(2);
